@@ -185,9 +185,15 @@ def probe(kind, p, pilot, occupied, entry):
         ev = mk_ev() if occupied else None
         if ev is not None:
             net.plugin(ev)
-        # previous accepted pilot (so that 'untouched' is not trivially 0)
+        # a previously ACCEPTED non-zero pilot (so that 'untouched' is not trivially 0): the largest finite advertised value
+        prev = [float(v) for v in evse.allowable_pilot_signals if np.isfinite(v) and v > 0]
+        first = max(prev) if prev else 16.0
+        try:
+            net.update_pilots(np.array([[4.0, 4.0], [first, pilot]]), 0, period)
+        except InvalidRateError:
+            first = 0.0
         before = (evse.current_pilot, ev_state(ev), evse.ev)
-        pilots = np.array([[4.0, 4.0], [0.0, pilot]])
+        pilots = np.array([[4.0, 4.0], [first, pilot]])
         try:
             net.update_pilots(pilots, 1, period)
             return True, None, evse.current_pilot, None, evse
